@@ -9,6 +9,7 @@
   are not touched by construction — assignment never rebinds, resizes or reallocates.
 -/
 import MultiProofs.StoreLemmas
+import MultiProofs.Inj
 
 namespace Multi
 namespace C05
@@ -159,6 +160,31 @@ theorem aref_assign_exact (bd bs : Int) (es : List Ext) (m : Mem α) (hes : ∀ 
       rw [addr_eq]
       show bd + (Layout.ofExts es).off idx = a
       rw [(raddr idx hidx').1, hk]; omega
+
+/-- a view reachable from an array by the view-forming operations of C01 is well-formed and injective (C01:
+    `reachable_denotes`, `reachable_injective`), so for such a destination the two hypotheses of the theorems above
+    are discharged -/
+theorem reachable_wf_injective (bd : Int) (ed : List Ext) (hed : ∀ e ∈ ed, e.first ≤ e.last)
+    (dst : View) (den : Den) (hr : Reach ⟨bd, Layout.ofExts ed⟩ dst den) : dst.lay.WF ∧ dst.Injective := by
+  have rwf := (C01.root_denotes ed hed).1
+  have r := C01.reachable_denotes ⟨bd, Layout.ofExts ed⟩ dst den rwf hr
+  refine ⟨r.1, ?_⟩
+  intro i j hi hj h
+  have hshape : dst.exts = den.shape := r.2.1
+  exact reachable_injective bd ed hed dst den hr i j (hshape ▸ hi) (hshape ▸ hj) h
+
+/-- **C05 for the property's quantifier**: destination and source reachable (as in C01) from two arrays, equal extents,
+    no element in common ⇒ after `dst = src` every destination element holds the corresponding source value and
+    every other cell of the storage is untouched -/
+theorem assign_exact_reachable (bd bs : Int) (ed es : List Ext) (hed : ∀ e ∈ ed, e.first ≤ e.last) (hes : ∀ e ∈ es, e.first ≤ e.last)
+    (dst src : View) (dd ds : Den) (hrd : Reach ⟨bd, Layout.ofExts ed⟩ dst dd) (hrs : Reach ⟨bs, Layout.ofExts es⟩ src ds)
+    (m : Mem α) (hne : dst.lay ≠ []) (hext : dst.exts = src.exts) (hdis : dst.Disjoint src) :
+    ∃ m', dst.assign src m = some m' ∧
+      (∀ idx, InBox dst.exts idx → m' (dst.addr idx) = m (src.addr idx)) ∧
+      (∀ a, ¬ dst.InImage a → m' a = m a) := by
+  obtain ⟨hd, hinj⟩ := reachable_wf_injective bd ed hed dst dd hrd
+  obtain ⟨hs, _⟩ := reachable_wf_injective bs es hes src ds hrs
+  exact assign_exact dst src m hd hs hne hext hinj hdis
 
 /-- 0-D assignment writes the one element -/
 theorem assign0_exact (dst : View) (x : α) (m : Mem α) :
